@@ -8,12 +8,14 @@ from symx import core, lib, dual, contracts
 from symx.core import SV, tz, Ctx
 
 PROPERTY = 'C10'
-OPTS = dict(timeout=120000, maxpaths=20, abs_scale=1e-9)
+OPTS = dict(timeout=120000, maxpaths=20, abs_scale=1e-6)      # replay comparisons against exact 0 / 1 (A inv(A) = 1): rounding noise of order 1e-16 must not count
 MODS = ('pyerrors.obs', 'pyerrors.covobs', 'pyerrors.linalg')
 
 
-def mk_matrix(cx, prefix, n, lays, cplx=False, numbers=()):
-    """n x n matrix of observables; lays: list of layouts cycled over the entries; `numbers`: positions holding plain numbers"""
+def mk_matrix(cx, prefix, n, lays, cplx=False, numbers=(), real_at=(), cobs_real_at=()):
+    """n x n matrix of observables; lays: list of layouts cycled over the entries; `numbers`: positions holding plain numbers;
+    in a complex matrix `real_at` positions hold a real Obs and `cobs_real_at` positions a CObs whose imaginary part is the plain default 0.0"""
+    numbers, real_at, cobs_real_at = [tuple(map(tuple, x)) for x in (numbers, real_at, cobs_real_at)]
     import pyerrors as pe
     M = np.empty((n, n), dtype=object)
     k = 0
@@ -25,7 +27,9 @@ def mk_matrix(cx, prefix, n, lays, cplx=False, numbers=()):
             lay = lays[k % len(lays)]
             k += 1
             o, _ = lib.mk_obs(cx, '%s%d%d' % (prefix, i, j), lay)
-            if cplx:
+            if cplx and (i, j) in cobs_real_at:
+                o = pe.CObs(o)
+            elif cplx and (i, j) not in real_at:
                 o2, _ = lib.mk_obs(cx, '%s%d%di' % (prefix, i, j), lay)
                 o = pe.CObs(o, o2)
             M[i, j] = o
@@ -202,7 +206,7 @@ def install_inv(cx):
     cx.patch(LA, 'anp', shim)
 
 
-def h_inv(cx, n, lays, cplx=False, numbers=False, e2e=False):
+def h_inv(cx, n, lays, cplx=False, numbers=False, e2e=False, real_at=(), cobs_real_at=()):
     """inv() under the contract "anp.linalg.inv returns X with M X = 1 (dX = -X dM X)".
     Decomposed (the bilinear end-to-end identity A inv(A) = 1 with all fluctuations is beyond nlsat for n >= 2):
     (M) the matrix handed to the library is A, resp. the real embedding [[A,-B],[B,A]] of A + iB;
@@ -214,7 +218,7 @@ def h_inv(cx, n, lays, cplx=False, numbers=False, e2e=False):
     import pyerrors as pe
     lib.sym_env(cx, *MODS)
     install_inv(cx)
-    A = mk_matrix(cx, 'A', n, lays, cplx, numbers=((n - 1, 0),) if numbers and n > 1 else ())
+    A = mk_matrix(cx, 'A', n, lays, cplx, numbers=((n - 1, 0),) if numbers and n > 1 else (), real_at=real_at, cobs_real_at=cobs_real_at)
     R = pe.linalg.inv(A)
     cx.expect(R.shape == (n, n), 'shape')
     if cx.mode == 'sym':
@@ -378,6 +382,9 @@ def jobs(tier, seed):
     add('inv', n=2, lays=[E, F_], numbers=True)
     add('inv', n=1, lays=[E, F_], cplx=True)
     add('inv', n=2, lays=[E], cplx=True)
+    add('inv', n=2, lays=[E], cplx=True, real_at=[[0, 0], [1, 1]])           # Hermitian-like: real observables on the diagonal
+    add('inv', n=2, lays=[E, F_], cplx=True, cobs_real_at=[[0, 0]])           # first entry a CObs with the plain default imaginary part
+    add('inv', n=2, lays=[E], cplx=True, real_at=[[1, 0]], numbers=False)
     add('scalar_op', n=2, lays=[E, Ei, F_])
     add('scalar_op', n=3, lays=[E, F_])
     add('array_mode', lays=[E, Ei, F_])
